@@ -7,6 +7,7 @@ import (
 	"encoding/json"
 	"errors"
 	"fmt"
+	"math/bits"
 	"runtime/debug"
 	"sort"
 
@@ -163,7 +164,7 @@ func state(c *curl.Curl) (l, h []uint) {
 }
 
 func mask(m int) uint {
-	if m >= 64 {
+	if m >= bits.UintSize {
 		return ^uint(0)
 	}
 	return uint(1)<<uint(m) - 1
@@ -411,6 +412,37 @@ func (hd *handle) step(msg opMsg) (clone *handle) {
 	}
 	n := blocks * ref.HashLen
 	e := logEntry{index: i, idx: idx, kind: op.Kind, m: hd.m, n: n}
+	if hd.m > bits.UintSize && (op.Kind == "absorb" || op.Kind == "squeeze") {
+		// a 32-bit build: one lane per bit of a state word, so a batch of more than 32 sequences cannot be represented
+		// (the package documents MaxBatchSize = bits.UintSize). Such a call must be rejected and leave the state untouched;
+		// accepting it would fold lane 32+k onto lane k.
+		if op.Kind == "absorb" && hd.squeezing {
+			return
+		}
+		bl, bh := state(hd.real)
+		var err error
+		if op.Kind == "absorb" {
+			err = hd.real.Absorb(genTrits(op.Pattern, op.Seed, hd.m, n), n)
+		} else {
+			err = hd.real.Squeeze(make([]trinary.Trits, hd.m), n)
+		}
+		hd.faults["rejected_call_more_lanes_than_word_bits"]++
+		if !errors.Is(err, consts.ErrInvalidBatchSize) {
+			hd.violate("wrong-error", fmt.Sprintf("%s: %d lanes on a build with %d-bit words: returned %v, documented error is %q", where(), hd.m, bits.UintSize, err, consts.ErrInvalidBatchSize))
+			return
+		}
+		al, ah := state(hd.real)
+		for p := range al {
+			if al[p] != bl[p] || ah[p] != bh[p] {
+				hd.violate("state-changed-by-rejected-call", fmt.Sprintf("%s (%d lanes, %d-bit words): the call was rejected with %q but state word %d changed", where(), hd.m, bits.UintSize, err, p))
+				return
+			}
+		}
+		e.extra = "rejected"
+		hd.log = append(hd.log, e)
+		hd.check(i, "")
+		return nil
+	}
 	switch op.Kind {
 	case "absorb":
 		if hd.squeezing {
@@ -541,7 +573,8 @@ func (hd *handle) step(msg opMsg) (clone *handle) {
 			err = hd.real.Squeeze(make([]trinary.Trits, lanes), cnt)
 		}
 		hd.faults["rejected_call_"+op.Bad]++
-		if !errors.Is(err, want) {
+		// a call that is wrong in two ways (more lanes than a word has bits AND a bad length) may name either
+		if !errors.Is(err, want) && !(lanes > bits.UintSize && errors.Is(err, consts.ErrInvalidBatchSize)) {
 			hd.violate("wrong-error", fmt.Sprintf("%s (%s: %d lanes, %d trits): returned %v, documented error is %q", where(), op.Bad, lanes, cnt, err, want))
 			return
 		}
